@@ -324,6 +324,30 @@ def cond_constraints(conds, subjects):
                     done = apply(nl, op, cr)
                 elif nr and isinstance(cl, int) and not isinstance(cl, bool):
                     done = apply(nr, CMP_FLIP[op], cl)
+        elif d[0] == "call" and isinstance(d[1], str) and d[1].endswith("::contains") and "Range" in d[1] and len(d[2]) == 2:
+            rng = const_of(unref(d[2][0]))
+            n = name_of(unref(d[2][1]))
+            truth = None
+            if isinstance(v, tuple):
+                truth = True if v[1] == (0,) else None
+            elif v in (0, 1):
+                truth = bool(v)
+            if n is not None and isinstance(rng, tuple) and truth is not None:
+                dd = dict(rng)
+                fs = dict(dd.get("fields", ()))
+                lo_, hi_ = fs.get("start"), fs.get("end")
+                if isinstance(lo_, int) and isinstance(hi_, int):
+                    if "Inclusive" not in d[1]:
+                        hi_ -= 1
+                    if truth:
+                        done = apply(n, "Ge", lo_) and apply(n, "Le", hi_)
+                    else:
+                        # outside the range: representable only at the ends of the current box
+                        cur = box[n]
+                        if cur[0] is not None and cur[0] >= lo_:
+                            done = apply(n, "Gt", hi_)
+                        elif cur[1] is not None and cur[1] <= hi_:
+                            done = apply(n, "Lt", lo_)
         else:
             n = name_of(d)
             if n is not None:
